@@ -239,7 +239,7 @@ pub fn one_scenario(rep: &Report, idx: usize, sc: &Scenario, keep: bool) -> Opti
 pub fn run(tier: Tier, seed: u64) -> i32 {
     let rep = Report::new("C07", "exploration", tier, seed);
     library_engine(&rep, seed, tier);
-    let n = tier.pick(500, 5000);
+    let n = tier.pick(500, 15_000);
     let viols = par_map(n, crate::util::ncpu(), |i| {
         let mut rng = Rng::new(seed).fork(0x0700 + i as u64);
         let mut sc = cc::gen_scenario(&mut rng, Focus::Mixed, (1, 1), true);
